@@ -1553,8 +1553,12 @@ def _decode_codes(driver, res, sparse=False):
                     cases.append({"kind": "decode", "driver": "luba", "code": status, "payload": fb})
             elif et == 2 and 1 <= info <= 32:
                 res.excluded["luba received-event with a bit count other than 8/16/24: not judged"] += 1
+            elif et != 2:
+                cases.append({"kind": "decode", "driver": "luba", "code": status, "payload": []})
             else:
-                cases.append({"kind": "decode", "driver": "luba", "code": status, "payload": [] if et != 2 else [0x55][:info % 2]})
+                # an error / unknown "event info": with and without bytes in the place where a frame would be
+                for pl in ([], [0x55], [0x55, 0xAA]):
+                    cases.append({"kind": "decode", "driver": "luba", "code": status, "payload": pl})
     else:
         for b0 in range(256):
             code = b0 & 15
